@@ -1346,11 +1346,11 @@ impl World {
         let memb = matches!(p, Profile::Membership | Profile::Watch | Profile::Mixed) || (p == Profile::TwoClusters && self.cfg.dead_grace < Duration::from_secs(3600));
         let r = self.rng.random_range(0..1000);
         // cumulative weights (per mille) depend on the profile
-        let w: [u32; 15] = if memb {
-            // write syn deliver dup drop cut heal gc eval beat advance crash join/restart tick handshake
-            [120, 110, 200, 40, 40, 25, 25, 40, 60, 20, 110, 25, 35, 110, 40]
+        let w: [u32; 16] = if memb {
+            // write syn deliver dup drop cut heal gc eval beat advance crash join/restart tick handshake one-way-syn
+            [120, 100, 190, 40, 40, 25, 25, 40, 60, 20, 110, 25, 35, 100, 40, 30]
         } else {
-            [220, 170, 230, 50, 50, 15, 15, 70, 20, 10, 80, if self.cfg.crashes { 8 } else { 0 }, if self.cfg.crashes { 12 } else { 5 }, 20, 30]
+            [220, 170, 225, 50, 50, 15, 15, 70, 20, 10, 80, if self.cfg.crashes { 8 } else { 0 }, if self.cfg.crashes { 12 } else { 5 }, 20, 30, 5]
         };
         let mut acc = 0;
         let mut kind = 14;
@@ -1438,6 +1438,16 @@ impl World {
                 }
             }
             13 => self.tick(a),
+            15 => {
+                // the SYN gets through, the answer is lost: heartbeats flow, data does not
+                if self.slots[b].up && !self.cut.contains(&(a.min(b), a.max(b))) {
+                    if let Some(syn) = self.emit_syn(a) {
+                        self.note(format!("one-way syn slot{a} -> slot{b} (reply lost)"));
+                        let _ = self.process(b, a, &syn);
+                        self.stats.inc("one_way_syns");
+                    }
+                }
+            }
             _ => {
                 if self.slots[b].up && !self.cut.contains(&(a.min(b), a.max(b))) {
                     // sometimes a full synchronisation: handshakes until neither side moves any more (states larger than
